@@ -42,18 +42,18 @@ def harness(cfg, B):
             model = fd.euler.euler1d(gamma=g)
             mesh = fd.mesh.unimesh(ncell=n, length=B.pos('len'))
         elif m == 'nozzle':
-            A = B.vararray('A', n, positive=True)
-            if B.symbolic:
-                from vt import term as tm
-                from vt.sym import P
+            # the section law is a genuine function of the abscissa (symbolic quadratic), so that the place where it is evaluated matters
+            s0, s1, s2 = B.pos('s0', 0.5, 2.0), B.var('s1', -0.3, 0.3), B.var('s2', -0.1, 0.1)
 
             def section(x):
-                # section law evaluated at the cell centres only (massflow uses centres): an arbitrary positive value per cell
-                if len(x) == n:
-                    return A
-                return B.array([B.const(1)] * len(x))
+                return s0 + s1 * x + s2 * x * x
             model = fd.euler.nozzle(section, gamma=g)
-            mesh = fd.mesh.unimesh(ncell=n, length=B.pos('len'))
+            mesh = cm.make_mesh(B, fd, {'mesh': 'faces'}, n)
+            A = section(mesh.centers())
+            for i in range(n):
+                B.assume(A[i] > 0)
+            for xx in mesh.xf:
+                B.assume(section(xx) > 0)
             model.initdisc(mesh)
         else:
             model = fd.euler.euler2d(gamma=g)
